@@ -40,6 +40,8 @@ type (
 	EnvelopeClient    = envelope.Client
 	EnvelopeHandler   = envelope.Handler
 	EnvelopeServer    = envelope.Server
+	// EnvelopeErrUnknownMethod is what a handler returns for a method it does not know.
+	EnvelopeErrUnknownMethod = envelope.ErrUnknownMethod
 )
 
 func NewEnvelopeClient(p protocol.Protocol, t envelope.Transport) envelope.Client {
